@@ -473,7 +473,7 @@ class Address:
         rslt = rslt and (self.addrAddr == arg.addrAddr)
 
         # if both have routes they must match
-        if rslt and self.addrRoute and arg.addrRoute:
+        if rslt and settings.route_aware and self.addrRoute and arg.addrRoute:
             rslt = rslt and (self.addrRoute == arg.addrRoute)
 
         return rslt
